@@ -116,6 +116,8 @@ def numeric(x):
     if isinstance(x, PersLandscapeExact):
         return [float(v) for d in x.critical_pairs for q in d for v in q]
     if isinstance(x, PersLandscapeApprox):
+        if np.asarray(x.values).dtype.kind in "US":       # the documented "empty" sentinel (no snapped bar spans two steps)
+            return [float(x.start), float(x.stop), -987654321.0]
         return [float(x.start), float(x.stop)] + [float(v) for v in np.asarray(x.values, dtype=float).ravel()]
     if isinstance(x, np.ndarray):
         if x.dtype.kind in "US":
